@@ -333,7 +333,8 @@ E_SozuData(s, n, es) ==
 Sozu_SendData(s, n, es) == armed /\ G_SozuData(s, n, es) /\ E_SozuData(s, n, es)
 
 \* a pass of the writer that finds nothing it may send parks it (finalize_write withdraws Ready::WRITABLE)
-G_SozuPark == armed /\ ~dead /\ \A s \in ids : ~CanWrite(s)
+\* (only worth a state where it matters: some stream is window-blocked; a head that opens a stream arms the writer anyway)
+G_SozuPark == armed /\ ~dead /\ (\A s \in ids : ~CanWrite(s)) /\ \E s \in ids : Blocked(s)
 E_SozuPark ==
   /\ armed' = FALSE /\ last' = NoFrame /\ stall' = FALSE /\ UNCHANGED <<burst, dropped>>
   /\ UNCHANGED <<pend, nset, eff, connWin, strWin, ids, sst, pst, rem, up, nextOurs, lastPeer, cont, needUpd, advInit,
